@@ -198,13 +198,6 @@ func fill(t *rapid.T, rv reflect.Value, depth int) {
 			return
 		}
 		m := reflect.MakeMap(rv.Type())
-		// (integers at the ends of the int64 range reach the recomposer as json.Number, which it converts
-		// for struct fields and slice elements but not for map values: kept out of maps, noted in DESIGN §9)
-		saved := bigIntMode
-		if bigIntMode == 2 {
-			bigIntMode = 0
-		}
-		defer func() { bigIntMode = saved }()
 		for i := 0; i < n; i++ {
 			k := reflect.ValueOf([]string{"k", "a", "key 2", "b", "K", "é", "zz", ""}[sim.Intn(t, 8, "mkey")])
 			e := reflect.New(rv.Type().Elem()).Elem()
